@@ -143,6 +143,10 @@ pub struct DevInputWriter {
 }
 
 impl DevInputWriter {
+  // Verification hook: a writer over an already open descriptor (a pipe in the harness).
+  #[cfg(ellbur_totalmapper_verif)]
+  pub fn verif_from_fd(fd: RawFd) -> DevInputWriter { DevInputWriter { fd } }
+
   pub fn open() -> Result<DevInputWriter, Error> {
     let fdo = open("/dev/uinput", OFlag::O_WRONLY | OFlag::O_NONBLOCK, Mode::empty())?;
 
